@@ -218,3 +218,58 @@ def describe_failure(f):
                             (' in ' + fn) if fn else '', (' at ' + where) if where else '')
     props = sorted(set(t.split('.')[0] for t in tags))
     return name, props, tags
+
+
+def run_lemma_canary(unit_name, fns, timeout=900):
+    """Vacuity guard for lemma-only units: append `assert(false)` to the body of each listed proof fn and require that none of
+    them verifies any more (a contradictory hypothesis set would let `false` through)."""
+    built = bu.build_unit(os.path.join(VERIF, 'units', unit_name + '.json'))
+    text = built['text']
+    placed = []
+    for fn in fns:
+        m = re.search(r'\bproof fn %s\s*\(' % re.escape(fn), text)
+        if not m:
+            continue
+        i = text.index('\n{\n', m.start())
+        depth, k = 0, i + 1
+        while k < len(text):
+            if text[k] == '{':
+                depth += 1
+            elif text[k] == '}':
+                depth -= 1
+                if depth == 0:
+                    break
+            k += 1
+        text = text[:k] + '    assert(false); /*LEMMA-CANARY %s*/\n' % fn + text[k:]
+        placed.append(fn)
+    os.makedirs(BUILD, exist_ok=True)
+    path = os.path.join(BUILD, unit_name + '_lemma_canary.rs')
+    open(path, 'w').write(text)
+    cmd = verus_cmd(path, ('--rlimit', '3', '--num-threads', '8'))
+    cmd[cmd.index('--multiple-errors') + 1] = '0'
+    try:
+        p = subprocess.run(cmd, cwd=BUILD, capture_output=True, text=True, timeout=timeout)
+    except subprocess.TimeoutExpired:
+        return {'expected': placed, 'failed': [], 'note': 'timeout'}
+    failed = set()
+    lines = text.split('\n')
+    for ln in p.stderr.split('\n'):
+        ln = ln.strip()
+        if not ln.startswith('{'):
+            continue
+        try:
+            d = json.loads(ln)
+        except Exception:
+            continue
+        if d.get('level') != 'error':
+            continue
+        for sp in d.get('spans', []):
+            if os.path.basename(sp.get('file_name', '')) != os.path.basename(path):
+                continue
+            # walk back from the span to the enclosing proof fn header
+            for j in range(min(sp.get('line_start', 1), len(lines)) - 1, -1, -1):
+                mm = re.match(r'\s*proof fn ([A-Za-z_0-9]+)\s*\(', lines[j])
+                if mm:
+                    failed.add(mm.group(1))
+                    break
+    return {'expected': placed, 'failed': sorted(f for f in failed if f in placed)}
